@@ -41,6 +41,9 @@ func c05(tier string) []*explore.Scenario {
 	// (c) id allocation under concurrent starts: the C01 drivers (wire oracle reports duplicate ids)
 	out = append(out, donors("C05", c01(tier))...)
 	out = append(out, donors("C05", []*explore.Scenario{c02One([]streamCase{{"Bidi", "pingpong", "echo", 1, 0, 0}, {"Bidi", "pingpong", "echo", 1, 0, 0}}, 64, 2)})...)
+	// late messages for an id whose handler has already returned (zero-length ones included): they
+	// must not reach - or create - a handler invocation that does not own the id
+	out = append(out, donors("C05", []*explore.Scenario{c14One([][2]string{{"Bidi", "lateempty"}}, 1), c14One([][2]string{{"CStream", "lateempty"}}, 1), c14One([][2]string{{"Bidi", "reset"}}, 1)})...)
 	out = append(out, c05FailedWrite(2), c05FailedWrite(1))
 	// per-call envelope order through the proxy + demultiplexer topology
 	out = append(out, c16RPCFam("C05", "2streams", true, 1), c16RPCFam("C05", "unary+stream", false, 1))
